@@ -106,6 +106,7 @@ func TestC02_FailedCallOnlyPaysFee(t *testing.T) {
 				st.Class("failed_call")
 				if wrote {
 					st.Class("failed_after_writing")
+					st.Class("rolled_back/" + h.Label(txn.ToClientID) + "." + txn.FunctionName)
 					st.NonTrivial(txn.ToClientID, txn.FunctionName, o.Output)
 				} else {
 					// early failures still count for distinctness, separately
